@@ -467,6 +467,7 @@ def run(ctx):
                        'evidence counts the faults really applied']
     if ctx.ensure_library():
         ctx.prove(['theories/Props/C19.v'])
+        ctx.effects_obligations()      # regenerated from the current source: see coq/obl/Eff_C19.v
     cases = gen_cases(ctx.rng, ctx.tier)
     terms, tcases = [], []
     for c in cases:
